@@ -168,20 +168,14 @@ theorem archive_manifest_agree (hashOf : List β → H) (lb : LBackup β) :
           subst hr; subst he
           refine ⟨rfl, ?_, ?_⟩
           · intro hu
-            simp only [Bool.and_eq_true, decide_eq_true_eq] at hu
-            have hne : d.isEmpty = false := by
-              cases d with
-              | nil => exact absurd rfl hu.1
-              | cons _ _ => rfl
-            simp only [Entry.data, hu.2, if_true, padded, hne, Bool.false_eq_true, if_false]
+            have hu' : lb.stored p = true := hu
+            simp only [Entry.data, hu', if_true, padded]
             refine ⟨by simp, by simp, ?_⟩
             intro hp
             simp [hp]
           · intro hu
-            by_cases hst : lb.stored p = true
-            · simp only [hst, Bool.and_true, decide_eq_false_iff_not, Decidable.not_not] at hu
-              simp [Entry.data, hst, padded, List.eq_nil_of_length_eq_zero hu]
-            · simp [Entry.data, hst]
+            have hu' : lb.stored p = false := hu
+            simp [Entry.data, hu']
         | succ i =>
           simp only [List.getElem?_cons_succ] at hr he
           exact ih i r e hr he
